@@ -217,9 +217,23 @@ impl RxSpec {
             Ok(Err(_)) => {
                 // "...and of ALL later fragments with that id": a well-formed intermediate / end fragment that
                 // the receiver REJECTS still belongs to the arrival-order concatenation.  Its payload is appended
-                // to the reference context, so a later delivery that leaves these bytes out is flagged.  (A
-                // rejected FIRST fragment does not replace the reference context: the receiver may keep the
-                // train it had.)
+                // to the reference context, so a later delivery that leaves these bytes out is flagged.
+                // A first fragment that arrived completely (the whole announced packet is in the buffer and the
+                // fixed fields frag id / total length / type / label fit in it) but is REJECTED is still "the
+                // most recent first fragment of that fragment id": whatever train was open on the id cannot be
+                // completed by later fragments any more (only with the bundled memory, which is what C03 uses;
+                // a memory that refuses new_frag may keep the old train).
+                if c03 && header_kind == Some(Kind::First) && input.len() >= 2 {
+                    let w = u16::from_be_bytes([input[0], input[1]]);
+                    let gse_len = (w & 0x0FFF) as usize;
+                    let ll = wire::lt_len(wire::lt_of_word(w));
+                    if input.len() >= gse_len + 2 && gse_len >= 3 + 2 + ll {
+                        let id = input[2] as usize;
+                        if self.ctx[id].take().is_some() {
+                            rep.count("rx.c03.train-abandoned-by-rejected-first-fragment");
+                        }
+                    }
+                }
                 if let Ok(p) = &parsed {
                     if p.kind == Kind::Inter || p.kind == Kind::End {
                         let id = p.frag_id.unwrap() as usize;
